@@ -8,6 +8,12 @@ Steps of a run
                     environment (the related loads the property talks about), with the real schema validation; and the
                     complete file with some leaves defined to be nil by the environment vs the file without them
   4. type stream  : every mechanism/cache type the loader registers must pass the file validation
+  4b. option names inside a mechanism's `config`: measured on the real file validation and the real type factories
+                    (harness op `mech`) BEFORE the Lean step, written into the generated module (mechOptionTable), theorem
+                    c20_mech_options_schema_eq_loader / c20_mech_usable_file_iff_env; a disagreeing row is turned into a
+                    configuration that is usable from one source only
+  (all streams)   : part of the loads run under a prefix of their own (--env-config-prefix in lower / mixed case, padded,
+                    empty) with foreign variables in between (Lean: selectEnv, c20_prefix_*)
   5. values stream: value shapes per leaf type from file and environment; one text per leaf where the file / only the
                     defaults / nothing defines the leaf (environment wins, file = environment, Lean load + decode)
   5c. dialect     : texts whose reading differs between YAML dialects / decoders (yes no on off y n, ~, null, 0o17, 017,
@@ -66,15 +72,25 @@ def run_parallel(cmd, cases, workers=4, timeout=900):
     return res
 
 
-def extract(R):
-    """regenerate the Gen table; returns the facts or None (violation recorded)"""
-    try:
-        os.remove(GEN_FILE)
-    except FileNotFoundError:
-        pass
+def extract(R, measured=None, write=True):
+    """regenerate the Gen table (with the measured mechanism option rows, if any); returns the facts or None
+    (violation recorded). write=False: facts only, the generated module is left alone"""
     env = dict(os.environ, VERIF_REPO=vlib.REPO)
+    cmd = [sys.executable, EXTRACTOR]
+    if measured is not None:
+        path = os.path.join(R.tmp, "mech_options.json")
+        with open(path, "w") as fh:
+            json.dump({"rows": measured}, fh)
+        cmd += ["--measured", path]
+    if not write:
+        cmd += ["--facts-only"]
     with vlib.LeanLock():
-        p = subprocess.run([sys.executable, EXTRACTOR], capture_output=True, text=True, env=env, timeout=120)
+        if write:
+            try:
+                os.remove(GEN_FILE)
+            except FileNotFoundError:
+                pass
+        p = subprocess.run(cmd, capture_output=True, text=True, env=env, timeout=120)
     if p.returncode != 0:
         R.violation("schema/loader fact extraction failed (source shape not understood): " + p.stderr.strip()[-400:],
                     {"stderr": p.stderr[-2000:], "stream": "extract/config_schema"}, no_input=True)
@@ -188,7 +204,12 @@ def l1_stream(R, exe, cases, label):
     nontriv = set()
     for c, m in zip(cases, model):
         s = m.get("stats", {}) if isinstance(m, dict) else {}
-        for key in ("env", "env_list_leaves", "env_overrides", "env_nil", "env_nil_overrides", "env_holes", "file_leaves",
+        if "prefix" in c:
+            st["own_prefix"] += 1
+            st["own_prefix_" + ("empty" if not gen_config.effective_prefix(c["prefix"]) else "other_case"
+                                if gen_config.effective_prefix(c["prefix"]) != gen_config.effective_prefix(c["prefix"]).upper()
+                                else "upper")] += 1
+        for key in ("foreign", "env", "env_list_leaves", "env_overrides", "env_nil", "env_nil_overrides", "env_holes", "file_leaves",
                     "default_leaves", "result_leaves"):
             st[key] += s.get(key, 0)
         st["depth_max"] = max(st["depth_max"], s.get("depth", 0))
@@ -204,7 +225,8 @@ def l1_stream(R, exe, cases, label):
         if sb is not None and not why:
             w = "the loaded configuration violates the leaf-wise rule environment > file > defaults at " + json.dumps(
                 sb.get("stats", {}).get("bad", [])[:3])
-        R.violation(f"{label}: {w}; environment {json.dumps([e[:2] for e in sc['env']][:6])}",
+        R.violation(f"{label}: {w}; " + (f"prefix {json.dumps(sc['prefix'])}, " if "prefix" in sc else "")
+                    + f"environment {json.dumps([e[:2] for e in sc['env']][:6])}",
                     {"kind": "load", "case": sc, "impl": si, "model": vlib.res_of(sm)})
     return len(cases), nontriv, st, len(bad), cases[:1]
 
@@ -294,12 +316,18 @@ def l2_verdict(base, r, valid_alone, nil=False):
     return f"file + environment fail ({json.dumps(r)[:80]}) although the complete file loads"
 
 
-def l2_shrink(exe, plan, rngseed):
+def shrunk_case(pl, prefix=None):
+    """the load of a (shrunk) plan, under the prefix of the case it was shrunk from"""
+    case = gen_config.plan_case(pl, None, rep=6)
+    return case if prefix is None else gen_config.with_prefix(case, prefix)
+
+
+def l2_shrink(exe, plan, rngseed, prefix=None):
     def fails(pl):
         if not pl:
             return False
         cfg = gen_config.plan_config(pl)
-        case = gen_config.plan_case(pl, None, rep=6)
+        case = shrunk_case(pl, prefix)
         (base, rs), = l2_eval(exe, [(cfg, [(pl, case)])])
         if not is_tree(base):
             return False
@@ -322,6 +350,8 @@ def l2_stream(R, exe, n_groups, required, strings=None):
             pl = gen_config.gen_plan(rng, cfg, mode, required)
             case = gen_config.plan_case(pl, rng)
             case["mode"] = mode
+            # the variables under a prefix of the operator's own (lower / mixed case, padded), foreign ones in between
+            case = gen_config.maybe_prefix(case, rng, 0.25)
             pls.append((pl, case))
         if planted:
             # ... written UNQUOTED into the file (complete file; file/environment split with the text in either source)
@@ -370,6 +400,8 @@ def l2_stream(R, exe, n_groups, required, strings=None):
             mode = case.get("mode")
             st["loads"] += 1
             st["env_vars"] += len(case["env"])
+            if "prefix" in case:
+                st["loads_own_prefix"] += 1
             v = l2_verdict(base, r, va, mode == "nil")
             if v == "ok":
                 st["equal_" + mode] += 1
@@ -388,11 +420,12 @@ def l2_stream(R, exe, n_groups, required, strings=None):
                 st["violations"] += 1
                 if reported < 3:
                     reported += 1
-                    spl = l2_shrink(exe, pl, R.seed)
-                    scase = gen_config.plan_case(spl, None, rep=6)
+                    spl = l2_shrink(exe, pl, R.seed, case.get("prefix"))
+                    scase = shrunk_case(spl, case.get("prefix"))
                     scfg = gen_config.plan_config(spl)
                     (sb, srs), = l2_eval(exe, [(scfg, [(spl, scase)])])
-                    R.violation("typed stream: " + l2_verdict(sb, srs[0][2], srs[0][3], plan_has_nil(scase)) + "; environment "
+                    R.violation("typed stream: " + l2_verdict(sb, srs[0][2], srs[0][3], plan_has_nil(scase))
+                                + ("; prefix " + json.dumps(scase["prefix"]) if "prefix" in scase else "") + "; environment "
                                 + json.dumps([e[:2] for e in scase["env"]][:6]) + " file " + str(scase.get("file"))[:200],
                                 {"kind": "cfg", "config": scfg, "case": scase, "impl_complete_file": sb,
                                  "impl_split": srs[0][2]})
@@ -519,6 +552,264 @@ def probe_option(exe, path, key, ignored=False):
         if ignored and is_tree(f) and vlib.canon(f) == vlib.canon(empty):
             return {"kind": "cfg-ignored", "config": cfg, "impl_file": "accepted, configuration unchanged"}
     return None
+
+
+# ---------------------------------------------------------------------------------------------------------------
+# stream 4b: the options INSIDE a mechanism's `config`. The static tables above end at `config` (a free-form map of the
+# Configuration struct); what a mechanism accepts there is decided by two pieces of running code: the JSON schema
+# applied to the FILE (additionalProperties of the alternative of the mechanism's type) and the type factory
+# (mapstructure with ErrorUnused) that creates the mechanism from the merged configuration, whatever its source. Both
+# are MEASURED: every type is declared with all candidate names at once at every place the schema describes below its
+# `config`, once in a file handed to the real ValidateConfig and once by variables through the real NewConfiguration +
+# NewMechanismFactory; the names each side refuses BY NAME are read off the structured errors. The measured table is
+# written into Gen/ConfigSchema.lean (obligation c20_mech_tables_agree, theorem c20_mech_options_schema_eq_loader);
+# a disagreeing row is turned into a configuration that is usable from one source only.
+
+UNKNOWN = "zz_unknown"           # stands for every name outside the candidate pool
+
+
+def load_schema():
+    try:
+        with open(os.path.join(vlib.REPO, "schema", "config.schema.json")) as fh:
+            return json.load(fh)
+    except Exception:  # noqa: BLE001
+        return None
+
+
+def schema_deref(schema, node):
+    for _ in range(30):
+        if not (isinstance(node, dict) and isinstance(node.get("$ref"), str) and node["$ref"].startswith("#/")):
+            break
+        cur = schema
+        for part in node["$ref"][2:].split("/"):
+            cur = cur.get(part) if isinstance(cur, dict) else None
+        node = cur
+    return node if isinstance(node, dict) else {}
+
+
+def schema_alts(schema, node, depth=0):
+    node = schema_deref(schema, node)
+    out = [node]
+    if depth < 6:
+        for k in ("anyOf", "oneOf", "allOf"):
+            for a in node.get(k, []) if isinstance(node.get(k), list) else []:
+                out += schema_alts(schema, a, depth + 1)
+        for k in ("then", "else"):
+            if isinstance(node.get(k), dict):
+                out += schema_alts(schema, node[k], depth + 1)
+    return out
+
+
+def schema_places(schema, node, place=(), depth=0):
+    """[(place, names the schema lists there)] for every place at or below `node` the schema describes as an object with
+    named properties (through lists: the first element)"""
+    res = []
+    props = {}
+    alts = schema_alts(schema, node)
+    for a in alts:
+        if isinstance(a.get("properties"), dict):
+            for k, v in a["properties"].items():
+                props.setdefault(k, v)
+    if props:
+        res.append((place, sorted(props)))
+        if depth < 4:
+            for k, v in sorted(props.items()):
+                res += schema_places(schema, v, place + (k,), depth + 1)
+    for a in alts:
+        if isinstance(a.get("items"), dict) and depth < 4:
+            res += schema_places(schema, a["items"], place + (0,), depth + 1)
+    return res
+
+
+def mech_schema_nodes(schema):
+    """{(category, type): schema node of the `config` of that mechanism type or None}"""
+    res = {}
+    defs = schema_deref(schema, {"$ref": "#/definitions/mechanismDefinitions"}).get("properties", {})
+    for cat, node in defs.items():
+        items = schema_deref(schema, node).get("items", {})
+        for alt in schema_alts(schema, items):
+            t = alt.get("properties", {}).get("type") if isinstance(alt.get("properties"), dict) else None
+            if isinstance(t, dict):
+                for typ in ([t["const"]] if "const" in t else t.get("enum", [])):
+                    res[(cat, typ)] = alt["properties"].get("config")
+    return res
+
+
+def mech_candidate_pool():
+    """names worth asking about: every mapstructure tag and every string used to index a map in the non-test sources
+    below internal/rules (a superset of what any factory reads); what both sides say about all OTHER names is asked
+    with the name `zz_unknown`"""
+    import re
+    pool = set()
+    root = os.path.join(vlib.REPO, "internal", "rules")
+    for d, _, files in os.walk(root):
+        if os.sep + "mocks" in d:
+            continue
+        for f in files:
+            if f.endswith(".go") and not f.endswith("_test.go"):
+                try:
+                    with open(os.path.join(d, f)) as fh:
+                        src = fh.read()
+                except OSError:
+                    continue
+                pool |= set(re.findall(r'mapstructure:"([A-Za-z][A-Za-z0-9_]*)', src))
+                pool |= set(re.findall(r'\[\s*"([a-z][a-z0-9_]*)"\s*\]', src))
+    return sorted(pool)
+
+
+def mech_measure(R, exe, facts):
+    """-> (rows, st, probes). rows: [cat, typ, place, schemaClosed, [names], loaderClosed, [names]]"""
+    st = collections.Counter()
+    schema = load_schema()
+    nodes = mech_schema_nodes(schema) if schema else {}
+    pool = mech_candidate_pool()
+    st["candidate_names"] = len(pool)
+    types = sorted({tuple(t) for t in facts["loaderMechTypes"] + facts["schemaMechTypes"] if t[0] != "cache"})
+    cases, meta = [], []
+    for cat, typ in types:
+        node = nodes.get((cat, typ))
+        places = schema_places(schema, node) if node is not None else []
+        if not places or places[0][0] != ():
+            places = [((), [])] + places
+        for place, names in places:
+            cand = sorted(set(pool) | set(names) | {UNKNOWN})
+            cfg = gen_config.mech_config(cat, typ, place, {k: "x" for k in cand})
+            _, vc, ec = gen_config.mech_cases(cfg)
+            cases += [vc, ec]
+            meta.append((cat, typ, place, cand, cfg))
+    out = run_parallel([exe], cases)
+    rows, probes = [], {}
+    for k, (cat, typ, place, cand, cfg) in enumerate(meta):
+        v, e = out[2 * k], out[2 * k + 1]
+        v = v[0] if isinstance(v, list) and len(v) == 1 else {}
+        e = e[0] if isinstance(e, list) and len(e) == 1 else {}
+        ps = gen_config.place_str(place)
+        st["mech_probes"] += 2
+        if not (isinstance(v, dict) and isinstance(e, dict) and "stage" in v and e.get("stage") in ("ok", "create")):
+            if place == ():
+                R.violation(f"the options of {cat} type '{typ}' cannot be measured: the minimal declaration does not reach the "
+                            f"type factory from environment variables ({json.dumps(e)[:80]})",
+                            {"kind": "mech", "config": cfg, "impl": [v, e]}, no_input=True)
+            st["mech_places_unmeasured"] += 1
+            continue
+        sr, lr = v.get("refused", {}), e.get("refused", {})
+        s_closed = UNKNOWN in sr.get(ps, []) or (place == () and "-" in sr)
+        l_closed = UNKNOWN in lr.get(ps, [])
+        s_names = [] if (place == () and "-" in sr) else sorted(set(cand) - set(sr.get(ps, [])) - {UNKNOWN})
+        l_names = sorted(set(cand) - set(lr.get(ps, [])) - {UNKNOWN})
+        if place != () and not l_closed:
+            # the factory does not check names here (a free-form map, a value decoded by a hook of its own, or the probe
+            # did not get that far): nothing to compare
+            st["mech_places_unmeasured"] += 1
+            continue
+        rows.append([cat, typ, ps, s_closed, s_names if s_closed else [], l_closed, l_names if l_closed else []])
+        probes[(cat, typ, ps)] = (place, cfg)
+        st["mech_places"] += 1
+        st["mech_names_read"] += len(l_names) if l_closed else 0
+        if place != ():
+            st["mech_places_nested"] += 1
+    return rows, st, probes
+
+
+def mech_row_problems(row, ignoring):
+    """what the Lean predicate `mechRowOk` demands, evaluated here to aim the search: [(problem, key)]"""
+    cat, typ, ps, s_closed, s_names, l_closed, l_names = row
+    res = []
+    if l_closed:
+        if s_closed:
+            res += [("env-only", k) for k in l_names if k not in s_names]
+            res += [("file-accepts-unread", k) for k in s_names if k not in l_names]
+    else:
+        if not s_closed:
+            res.append(("unchecked", UNKNOWN))
+        else:
+            res += [("accepted-ignored", k) for k in s_names]
+            if [cat, typ] not in [list(t) for t in ignoring]:
+                res.append(("tolerant-factory", UNKNOWN))
+    return res
+
+
+MECH_VALUES = ["x", 418, True, {"a": "b"}, ["x"], "5s"]
+
+
+def mech_usable(exe, cfg):
+    """(usable from the file, usable from the environment, raw answers)"""
+    fc, _, ec = gen_config.mech_cases(cfg)
+    f, e = vlib.run_cases([exe], [fc, ec])
+    fs = f[0].get("stage") if isinstance(f, list) and len(f) == 1 and isinstance(f[0], dict) else None
+    es = e[0].get("stage") if isinstance(e, list) and len(e) == 1 and isinstance(e[0], dict) else None
+    return fs == "ok", es == "ok", f, e
+
+
+def mech_names_verdict(exe, cat, typ, place, key):
+    """(refused by the file validation, refused by the type factory) for one name at one place, measured"""
+    cfg = gen_config.mech_config(cat, typ, tuple(place), {key: "x"})
+    _, vc, ec = gen_config.mech_cases(cfg)
+    v, e = vlib.run_cases([exe], [vc, ec])
+    ps = gen_config.place_str(place)
+    v = v[0] if isinstance(v, list) and len(v) == 1 and isinstance(v[0], dict) else {}
+    e = e[0] if isinstance(e, list) and len(e) == 1 and isinstance(e[0], dict) else {}
+    s_ref = key in v.get("refused", {}).get(ps, []) or (not place and "-" in v.get("refused", {}))
+    l_ref = key in e.get("refused", {}).get(ps, [])
+    return s_ref, l_ref, cfg
+
+
+def mech_stream(R, exe, facts, rows, probes, st):
+    shown = 0
+    for row in rows:
+        cat, typ, ps = row[:3]
+        place, _ = probes[(cat, typ, ps)]
+        for problem, key in mech_row_problems(row, facts.get("ignoresConfig", [])):
+            st["mech_disagreements"] += 1
+            if shown >= 4:
+                continue
+            shown += 1
+            where = f"{cat} type '{typ}', option '{(ps + '.' if ps else '') + key}'"
+            if problem == "env-only":
+                # search: a value with which the declaration is usable from the environment and not from the file
+                hit = None
+                for val in MECH_VALUES:
+                    cfg = gen_config.mech_config(cat, typ, place, {key: val})
+                    fu, eu, f, e = mech_usable(exe, cfg)
+                    if eu and not fu:
+                        hit = (cfg, f, e)
+                        break
+                if hit:
+                    R.violation(f"{where}: the type factory reads the option and the configuration is usable from environment "
+                                f"variables, but the file validation rejects the same configuration as a file "
+                                f"({json.dumps(hit[1])[:80]})",
+                                {"kind": "mech", "config": hit[0], "impl_file": hit[1], "impl_env": hit[2], "expect": "same"})
+                else:
+                    s_ref, l_ref, cfg = mech_names_verdict(exe, cat, typ, place, key)
+                    R.violation(f"{where}: the type factory reads the option, the file validation refuses the name",
+                                {"kind": "mechopt", "category": cat, "type": typ, "place": list(place), "key": key,
+                                 "config": cfg, "impl": {"file_validation_refuses": s_ref, "factory_refuses": l_ref}})
+            elif problem == "file-accepts-unread":
+                s_ref, l_ref, cfg = mech_names_verdict(exe, cat, typ, place, key)
+                R.violation(f"{where}: the file validation accepts the option, the type factory does not read it (refused "
+                            f"when the mechanism is created)",
+                            {"kind": "mechopt", "category": cat, "type": typ, "place": list(place), "key": key,
+                             "config": cfg, "impl": {"file_validation_refuses": s_ref, "factory_refuses": l_ref}})
+            else:
+                cfg = gen_config.mech_config(cat, typ, place, {key: "x"})
+                fu, eu, f, e = mech_usable(exe, cfg)
+                what = {"accepted-ignored": "the file validation accepts the option, the type factory ignores whatever is configured",
+                        "tolerant-factory": "the type factory accepts any option name without reading it through a checked "
+                                            "structure (its factory function does not ignore the config either)",
+                        "unchecked": "neither the file validation nor the type factory check option names"}[problem]
+                R.violation(f"{where}: {what}", {"kind": "mech", "config": cfg, "impl_file": f, "impl_env": e,
+                                                 "expect": "refused"}, no_input=(fu == eu and problem != "accepted-ignored"))
+
+
+def corpus_mech(R, exe, items, st):
+    """corpus kind `mech`: a mechanism declaration must be usable from the file iff it is usable from the environment"""
+    for c in items:
+        fu, eu, f, e = mech_usable(exe, c["config"])
+        st["corpus_mech"] += 1
+        if fu != eu:
+            R.violation(f"corpus {c.get('name', '')}: the configuration is usable from "
+                        f"{'the file' if fu else 'environment variables'} only",
+                        {"kind": "mech", "config": c["config"], "impl_file": f, "impl_env": e, "expect": "same"})
 
 
 # ---------------------------------------------------------------------------------------------------------------
@@ -1066,7 +1357,7 @@ def history_stream(R, exe, hs):
         ok = isinstance(r, dict) and "then" in r and all(vlib.canon(a) == vlib.canon(b) for a, b in zip(r["then"], fr)) \
             and all(vlib.canon(a) == vlib.canon(b) for a, b in zip(r["then"], r["now"]))
         if ok:
-            if sum(1 for l in h["loads"] if "cache" in (l.get("file") or "") or any(e[0].startswith("CACHE_CONFIG") for e in l["env"])) >= 1 \
+            if sum(1 for l in h["loads"] if "cache" in (l.get("file") or "") or any("CACHE_CONFIG" in e[0] for e in l["env"])) >= 1 \
                     and len({vlib.canon(t) for t in r["then"]}) >= 2:
                 nontriv.add(vlib.case_hash(h))
             st["loads_failing_alike"] += sum(1 for t in r["then"] if isinstance(t, str))
@@ -1143,14 +1434,24 @@ def corpus_groups(R, exe, groups, st):
 def run(R):
     quick = R.tier == "quick"
     os.environ["TMPDIR"] = R.tmp          # configuration files the harness writes live under the run's directory
-    facts = extract(R)
+    # the harness first: the options inside the mechanisms' `config` are measured on the running code and the measured
+    # table is part of the generated module the theorems are checked against
+    exe = vlib.step_harness(R)
+    facts = extract(R, write=False) if exe is not None else extract(R)
+    mrows, st3b, mprobes = None, collections.Counter(), {}
+    if exe is not None and facts is not None:
+        mrows, st3b, mprobes = mech_measure(R, exe, facts)
     lean_ok = False
-    if facts is not None:
-        lean_ok = vlib.step_lean(R, PID)
-    else:
+    # generated module and build under one lock: other checks' clean-up (`git checkout -- lean/HeimdallModel/Gen`) and
+    # parallel C20 runs against other trees rewrite the same file
+    with vlib.LeanLock():
+        if exe is not None and facts is not None:
+            facts = extract(R, measured=mrows)
+        if facts is not None:
+            lean_ok = vlib.step_lean(R, PID)
+    if facts is None:
         R.coverage.update({"obligations": 1, "discharged": 0, "checker_cmd": "lake build HeimdallModel.Props.C20",
                            "trusted_base": list(vlib.TRUSTED_BASE)})
-    exe = vlib.step_harness(R)
     if exe is None:
         R.violation("harness does not build against /repo (API used by the correspondence check changed)",
                     {"build_log": R.harness_log[-3000:]}, no_input=True)
@@ -1179,6 +1480,10 @@ def run(R):
     st2, nt2, sample2 = l2_stream(R, exe, n2, required, strings or None)
     corpus_groups(R, exe, groups, st2)
     st3 = schema_stream(R, exe, facts) if facts is not None else collections.Counter()
+    if facts is not None and mrows is not None:
+        mech_stream(R, exe, facts, mrows, mprobes, st3b)
+    corpus_mech(R, exe, [c for c in vlib.load_corpus(PID) if c.get("kind") == "mech"], st3b)
+    st3.update(st3b)
     st4, nt4 = leaf_stream(R, exe, gen_config.leaf_cases())
     st4b, nt4b = site_stream(R, exe)
     st4.update(st4b)
@@ -1189,7 +1494,7 @@ def run(R):
     n5 = 40 if quick else 400
     st5, nt5 = history_stream(R, exe, hists + [gen_config.gen_history(R.rng) for _ in range(n5)])
     R.coverage.update({
-        "evaluations": n_l1 + st2["loads"] + st2["groups"] + 2 * st3["types_checked"] + 2 * st4["value_cases"]
+        "evaluations": n_l1 + st2["loads"] + st2["groups"] + 2 * st3["types_checked"] + st3["mech_probes"] + 2 * st4["value_cases"]
                        + st4["site_loads"] + 2 * st5["history_loads"] + st6["dialect_loads"] + 5 * st6["reading_texts"],
         "distinct_nontrivial": len(nt1) + len(nt2) + len(nt4) + len(nt5) + len(nt6),
         "rule": "tree stream: a random configuration tree (maps, lists of scalars, lists of structures, nested lists; "
@@ -1227,6 +1532,16 @@ def run(R):
                 "usable, same leaf, both as the Lean model (fileOutcomeOf / envOutcomeOf) says; non-trivial = a text some "
                 "decoder does not read as written, or an unquoted text the file delivers; the typed stream plants such "
                 "strings unquoted into complete files and file/environment splits. "
+                "prefix: about 30 % of the tree cases, 25 % of the typed loads and of the history loads run under a prefix "
+                "of their own (upper, lower, mixed case, without trailing underscore, with a dot, padded with blanks; the tree "
+                "stream also the empty prefix in an emptied process environment) with the variables under their full names "
+                "and foreign variables - named like real ones but for the case of letters of the prefix, a truncated or a "
+                "shifted prefix, carrying conflicting values - in between (model: Config.selectEnv / loadP). "
+                "mechanism options: every mechanism type is declared with ~100 candidate names (all mapstructure tags and "
+                "map index literals of internal/rules, the names of the schema, zz_unknown) at every place the schema "
+                "describes below its config; the real ValidateConfig and the real NewConfiguration + NewMechanismFactory "
+                "(from variables) say which names they refuse; the measured table is the generated Lean table of "
+                "c20_mech_tables_agree. "
                 "history stream: 3-4 NewConfiguration "
                 "loads (file / environment / override, cache.config leaves, services, mechanisms) in one process, every result "
                 "compared with the same load in a fresh process and re-inspected after the later loads; non-trivial = a "
@@ -1239,7 +1554,9 @@ def run(R):
         "exhaustive": False,
         "generated_tables": None if facts is None else {
             "mechanism_types_schema": len(facts["schemaMechTypes"]), "mechanism_types_loader": len(facts["loaderMechTypes"]),
-            "option_rows": len(facts["optionTable"]), "unread_service_fields": facts["unread"]},
+            "option_rows": len(facts["optionTable"]), "unread_service_fields": facts["unread"],
+            "mechanism_option_rows_measured": None if mrows is None else len(mrows),
+            "factories_ignoring_config": facts.get("ignoresConfig")},
         "known_finding_hits": dict(R.known_hits),
     })
     R.assumptions += [
@@ -1261,12 +1578,19 @@ def run(R):
         "each other; the text of a float is exact for up to 15 significant digits; what the validator reads is observed "
         "through the verdict of the real ValidateConfig on files that say the text where the schema wants a string, a "
         "boolean or an integer",
-        "schema/loader tables cover mechanism and cache types and the option names of the static configuration structs; "
-        "the options inside a mechanism's `config` and value constraints (patterns, required) are not in the tables",
+        "schema/loader tables cover mechanism and cache types, the option names of the static configuration structs and - "
+        "measured on the running code - the option names inside a mechanism's `config` at every place the schema describes "
+        "and the factory checks (places decoded by a hook of their own - endpoint `auth`, the extraction strategies of "
+        "`*_source` - and the `config` of a cache are not in the table); a name outside the candidate pool is represented "
+        "by `zz_unknown`; a factory that tolerates every name is taken to ignore its config only if its factory function "
+        "ignores the parameter (read off the source); value constraints (patterns, required) are not in the tables",
+        "the prefix is trimmed of blanks and tabs in the generated cases (strings.TrimSpace also removes other Unicode "
+        "white space; the model lists the ASCII and Latin-1 ones); with an empty prefix the loader takes every variable of "
+        "the process, generated for the tree stream only, in an emptied process environment",
     ]
     if facts is not None and not lean_ok:
         failed = "; ".join(R.lean["failed"])[:600]
-        only_tables = "c20_tables_agree" in json.dumps(R.lean.get("failed_theorems", [])) or "tablesAgree" in R.lean["log"]
+        only_tables = "tables_agree" in json.dumps(R.lean.get("failed_theorems", [])) or "ablesAgree" in R.lean["log"]
         R.violation("theorems of Props/C20.lean no longer check"
                     + (" (schema and loader tables regenerated from the source disagree)" if only_tables else "") + ": " + failed,
                     {"lean_log": R.lean["log"][-3000:], "failed": R.lean["failed"], "theorems": R.lean.get("failed_theorems"),
@@ -1349,6 +1673,23 @@ def replay(R, path):
         print("verdict:", v[0] if v else "every load equals its fresh-process twin, nothing changed afterwards")
         if v:
             R.violation("replay: " + v[0], {"kind": "history", "case": p["case"], "impl_history": v[2], "impl_fresh": v[3]})
+    elif kind == "mech":
+        fu, eu, f, e = mech_usable(exe, p["config"])
+        print("from the file (validation, loader, catalogue creation)  :", json.dumps(f)[:200])
+        print("from variables (loader, catalogue creation)             :", json.dumps(e)[:200])
+        if p.get("expect") == "refused":
+            if fu or eu:
+                R.violation("replay: an option nobody reads is accepted", dict(p, impl_file=f, impl_env=e))
+        elif fu != eu:
+            R.violation("replay: the configuration is usable from " + ("the file" if fu else "environment variables") + " only",
+                        dict(p, impl_file=f, impl_env=e))
+    elif kind == "mechopt":
+        s_ref, l_ref, cfg = mech_names_verdict(exe, p["category"], p["type"], p["place"], p["key"])
+        print("the file validation refuses the name :", s_ref)
+        print("the type factory refuses the name    :", l_ref)
+        if s_ref != l_ref:
+            R.violation("replay: file validation and type factory disagree about the option name",
+                        dict(p, impl={"file_validation_refuses": s_ref, "factory_refuses": l_ref}))
     elif kind == "cfg-accepts-unknown":
         f = vlib.run_cases([exe], [gen_config.base_case(p["config"])])[0]
         print("from file:", json.dumps(f)[:200])
